@@ -21,7 +21,60 @@ def make_game(rng, backend, max_states=16, nontrivial_bias=True):
     return g
 
 
+def _make_graph_game(rng, backend, max_states):
+    """Sparse, graph-like games: the component moves a token y along a sparse
+    digraph (chains, cycles, branches chosen by the environment's next
+    value), so that attractors and traps need several iterations and the
+    goal counter really has to advance.  1-3 persistence and 1-3 recurrence
+    sets, three goals with probability 1/3."""
+    ykind = rng.choice([(0, 3), (0, 2), (-2, 1)] if max_states >= 8
+                       else [(0, 1), (-1, 0)])
+    xkind = rng.choice(['bool', 'bool', (0, 1)])
+    decl = dict(const={}, env={'x': xkind}, sys={'y': ykind})
+    ar = games.Arena(decl, backend)
+    ny, nx = ar.ny, ar.nx
+    # environment: free, toggling, or holding
+    ek = rng.choice(['free', 'free', 'toggle', 'hold', 'random'])
+    E = []
+    for (c, x, y) in ar.states():
+        row = []
+        for xp in range(nx):
+            ok = {'free': True, 'toggle': xp != x, 'hold': xp == x,
+                  'random': rng.random() < 0.7}[ek]
+            row += [ok] * ny
+        E.append(row)
+    # component: sparse successor sets, possibly depending on x'
+    succ = {}
+    for y in range(ny):
+        for xp in range(nx):
+            k = rng.choice([1, 1, 2])
+            base = [(y + 1) % ny, y, (y + 2) % ny, rng.randrange(ny)]
+            succ[(y, xp)] = set(rng.sample(base, k)) if rng.random() < 0.9 \
+                else set()
+    dep_x = rng.random() < 0.5
+    S = []
+    for (c, x, y) in ar.states():
+        row = []
+        for xp in range(nx):
+            t = succ[(y, xp if dep_x else 0)]
+            row += [yp in t for yp in range(ny)]
+        S.append(row)
+    nP = rng.choice([1, 2, 2, 3])
+    nR = rng.choice([1, 2, 3])
+
+    def subset(k):
+        ys = set(rng.sample(range(ny), min(k, ny)))
+        xs = None if rng.random() < 0.7 else rng.randrange(nx)
+        return [(y in ys) and (xs is None or x == xs)
+                for (c, x, y) in ar.states()]
+    P = [subset(rng.choice([1, 2])) for _ in range(nP)]
+    R = [subset(rng.choice([1, 1, 2])) for _ in range(nR)]
+    return dict(decl=decl, backend=backend, E=E, S=S, P=P, R=R, ar=ar)
+
+
 def _make_game(rng, backend, max_states):
+    if rng.random() < 0.5:
+        return _make_graph_game(rng, backend, max_states)
     decl = games.random_decl(rng, max_states=max_states)
     ar = games.Arena(decl, backend)
     style = rng.choice(['safety', 'random', 'random', 'free_env'])
